@@ -947,7 +947,35 @@ pub fn alphabet_scalar(pr: &mut Prng) -> BigUint {
             ((BigUint::one() << a) - 1u32) % r
         }
         10 => BigUint::from(pr.below(1 << 16)),
-        11 => BigUint::from(3u32),
+        11 => {
+            // constants with an algebraic relation to the curve: the BN parameter t, the Miller
+            // loop count 6t+2, the trace, q mod r, Montgomery constants mod r, and neighbours
+            let t = BigUint::from(0x600000000058F98Au64);
+            let six_t_2 = &t * 6u32 + 2u32;
+            let q = model::q();
+            let two256 = BigUint::one() << 256;
+            let pool: Vec<BigUint> = vec![
+                t.clone(),
+                six_t_2.clone(),
+                r - &six_t_2,
+                &six_t_2 + 1u32,
+                &six_t_2 - 1u32,
+                q % r,
+                (q % r) - 1u32,
+                (q + 1u32 - r) % r,
+                (&t * &t) % r,
+                (&t * &t * 36u32) % r,
+                &two256 % r,
+                (&two256 * &two256) % r,
+                (r - 1u32) / 3u32,
+                (r - 1u32) / 6u32,
+                BigUint::from(3u32),
+                BigUint::from(13u32),
+                BigUint::from(1621u32),
+            ];
+            let v = pr.pick(&pool).clone();
+            if pr.chance(1, 4) { (r - v) % r } else { v }
+        }
         _ => from_be(&pr.bytes(32)) % r,
     }
 }
